@@ -21,7 +21,9 @@ type Expr struct {
 	Arg  string `json:"arg,omitempty"`
 	Arg2 string `json:"arg2,omitempty"`
 	Enc  string `json:"enc,omitempty"` // "" atom/quoted as needed | "q" quoted | "l" literal
-	Sub  []Expr `json:"sub,omitempty"`
+	// Latin1: the argument (kept as UTF-8 here) goes on the wire in ISO-8859-1, as a literal (for CHARSET ISO-8859-1)
+	Latin1 bool   `json:"latin1,omitempty"`
+	Sub    []Expr `json:"sub,omitempty"`
 }
 
 type C15Case struct {
@@ -45,7 +47,7 @@ var c15Msgs = []c15Msg{
 	{Key: "m2", From: "bob@b.example", To: "carol@c.example", Cc: "dave@d.example", Subject: "beta notes", Body: "banana split", Date: d(2), Sent: d(2), Flags: `\Flagged \Answered`, Pad: 2000},
 	{Key: "m3", From: "carol@c.example", To: "alice@a.example", Bcc: "eve@e.example", Subject: "gamma alpha", Body: "cherry tart", Date: d(3), Sent: d(3), Flags: `\Deleted \Draft`},
 	{Key: "m4", From: "dave@d.example", To: "bob@b.example", Subject: "delta", Body: "apple banana", Date: d(4), Sent: time.Date(2019, 12, 31, 12, 0, 0, 0, time.UTC), Flags: `\Seen \Flagged $work`, Pad: 500},
-	{Key: "m5", From: "eve@e.example", To: "carol@c.example", Cc: "alice@a.example", Subject: "epsilon", Body: "durian", Date: d(5), Sent: d(5), Flags: ``},
+	{Key: "m5", From: "eve@e.example", To: "carol@c.example", Cc: "alice@a.example", Subject: "epsilon", Body: "durian caf\u00e9 cr\u00e8me", Date: d(5), Sent: d(5), Flags: ``},
 }
 
 func (m c15Msg) literal() string {
@@ -210,6 +212,13 @@ func render(e Expr) string {
 	case "key":
 		s := e.K
 		enc := func(a string) string {
+			if e.Latin1 {
+				b := make([]byte, 0, len(a))
+				for _, r := range a {
+					b = append(b, byte(r)) // the test words only use code points below 256
+				}
+				return fmt.Sprintf("{%d}\r\n%s", len(b), b)
+			}
 			switch {
 			case e.Enc == "l" && a != "": // (a zero-length literal is C11's subject)
 				return fmt.Sprintf("{%d}\r\n%s", len(a), a)
